@@ -75,20 +75,22 @@ Fixpoint ser_buf (v : value) (cap : N) : sres :=
       end
   end.
 
-(* ---- cop_deserialize_value(buf, buf_size, out, heap).
-   DFail = returns 0.  DOob = undefined behaviour, observed as SIGSEGV: either the uint32 sum `pos + len` wrapped, the
-   bounds check passed and vm_string_new reads `len` bytes past the end of the buffer; or calloc(count, 16) in vm_array_new
-   failed (count > [amax], the largest element count the allocator grants -- an environment parameter), `elements` is
-   NULL and vm_array_push stores the first decoded element through it.  DFuel = model artefact,
-   proved unreachable for fuel >= length of the buffer.  The recursion of the C function consumes at least the tag byte
-   per level, so the buffer length bounds it. *)
+(* ---- cop_deserialize_value(buf, buf_size, out, heap) = deserialize_value_at(.., depth = 0).
+   DFail = returns 0.  The bounds checks are subtractions that cannot wrap (`len > buf_size - pos` with pos <= buf_size), an
+   array count larger than the bytes that follow is refused before anything is allocated (every element takes at least its
+   tag byte), a failed allocation returns 0 ([amax] = the largest element count the allocator grants, an environment
+   parameter), and nesting beyond COP_MAX_NESTING array levels is refused.
+   DOob (= the C code reads or writes out of bounds) is kept as an outcome of the type: the client model is stated for an
+   arbitrary decoder; this decoder is PROVED never to produce it (CopCodecProofs.deser_never_oob).
+   DFuel = model artefact, proved unreachable for fuel >= length of the buffer.  The recursion of the C function consumes at
+   least the tag byte per level, so the buffer length bounds it. *)
 Inductive dres := DOk (v : value) (n : nat) | DFail | DOob | DFuel.
 Inductive eres := EOk (vs : list value) (n : nat) | EFail | EOob | EFuel.
 
 Definition fixed8 (mk : N -> value) (r : list byte) : dres :=
   if Nat.ltb (length (firstn 8 r)) 8 then DFail else DOk (mk (of_le (firstn 8 r))) 9.
 
-Fixpoint deser_f (amax : N) (fuel : nat) (bs : list byte) : dres :=
+Fixpoint deser_f (amax : N) (depth : N) (fuel : nat) (bs : list byte) : dres :=
   match bs with
   | [] => DFail
   | tag :: r =>
@@ -102,8 +104,7 @@ Fixpoint deser_f (amax : N) (fuel : nat) (bs : list byte) : dres :=
       else if tag =? TAG_STRING then
         if Nat.ltb (length r) 4 then DFail else
         let l := of_le (firstn 4 r) in
-        if len bs <? u32 (5 + l) then DFail
-        else if len bs <? 5 + l then DOob
+        if len bs - 5 <? l then DFail                 (* len > buf_size - pos, pos = 5 <= buf_size *)
         else DOk (VStr (firstn (N.to_nat l) (skipn 4 r))) (5 + N.to_nat l)
       else if tag =? TAG_OPAQUE then fixed8 VOpaque r
       else if tag =? TAG_ARRAY then
@@ -111,10 +112,10 @@ Fixpoint deser_f (amax : N) (fuel : nat) (bs : list byte) : dres :=
         match r with
         | et :: r1 =>
             let count := of_le (firstn 4 r1) in
-            if amax <? count then
-              match deser_f amax f (skipn 4 r1) with DOk _ _ => DOob | x => x end
+            if (len bs - 6 <? count) || (COP_MAX_NESTING <=? depth) then DFail   (* count > buf_size - pos || depth >= MAX *)
+            else if amax <? count then DFail                                     (* vm_array_new failed *)
             else
-            match deser_elems amax f count (skipn 4 r1) with
+            match deser_elems amax (depth + 1) f count (skipn 4 r1) with
             | EOk vs n => DOk (VArr et vs) (6 + n)
             | EFail => DFail | EOob => DOob | EFuel => DFuel
             end
@@ -123,14 +124,14 @@ Fixpoint deser_f (amax : N) (fuel : nat) (bs : list byte) : dres :=
       else DOk VVoid 1
     end
   end
-with deser_elems (amax : N) (fuel : nat) (count : N) (bs : list byte) : eres :=
+with deser_elems (amax : N) (depth : N) (fuel : nat) (count : N) (bs : list byte) : eres :=
   if count =? 0 then EOk [] 0 else
   match fuel with
   | O => EFuel
   | S f =>
-    match deser_f amax f bs with
+    match deser_f amax depth f bs with
     | DOk v n =>
-        match deser_elems amax f (N.pred count) (skipn n bs) with
+        match deser_elems amax depth f (N.pred count) (skipn n bs) with
         | EOk vs m => EOk (v :: vs) (n + m)
         | x => x
         end
@@ -138,22 +139,29 @@ with deser_elems (amax : N) (fuel : nat) (count : N) (bs : list byte) : eres :=
     end
   end.
 
-Definition deser_a (amax : N) (bs : list byte) : dres := deser_f amax (length bs) bs.
+Definition deser_a (amax : N) (bs : list byte) : dres := deser_f amax 0 (length bs) bs.
 (* with an allocator that grants every request the format can express (count < 2^32) *)
 Definition deser_r (bs : list byte) : dres := deser_a 4294967295 bs.
 Definition deser (bs : list byte) : option (value * nat) :=
   match deser_r bs with DOk v n => Some (v, n) | _ => None end.
 
-(* ---- transferable values: the types the property names, with representable fields *)
-Fixpoint transferableb (v : value) : bool :=
+(* ---- transferable values: the types the property names, with representable fields, nested at most COP_MAX_NESTING
+   array levels (the decoder refuses deeper values) *)
+Fixpoint wf_valueb (v : value) : bool :=
   match v with
   | VVoid => true
   | VInt n | VFloat n | VOpaque n => n <? 2 ^ 64
   | VBool _ => true
   | VStr s => bytes_okb s && (len s + 5 <? 2 ^ 32)
-  | VArr et es => (et <? 256) && (len es <? 2 ^ 32) && forallb transferableb es
+  | VArr et es => (et <? 256) && (len es <? 2 ^ 32) && forallb wf_valueb es
   | VOther _ => false
   end.
+Fixpoint vdepth (v : value) : N :=
+  match v with
+  | VArr _ es => 1 + fold_right (fun e a => N.max (vdepth e) a) 0 es
+  | _ => 0
+  end.
+Definition transferableb (v : value) : bool := wf_valueb v && (vdepth v <=? COP_MAX_NESTING).
 
 (* total serialized size, without building the bytes *)
 Fixpoint ser_size (v : value) : N :=
@@ -230,16 +238,20 @@ Definition parse_request (payload : list byte) : preq :=
 Inductive outcome := ORes (v : value) | OErr (msg : list byte).
 Definition callee_t := N -> list value -> outcome.
 
-(* handle_ffi_req: reply message for an outcome.  A result that fits neither the 4096-byte stack buffer nor the
-   1 MiB heap buffer is sent as FFI_RESULT with an EMPTY payload (result_len = 0). *)
-Definition reply_payload (r : value) : list byte :=
-  match ser_buf r COP_REPLY_STACK_BUF with
-  | SOk b => b
-  | _ => match ser_buf r COP_REPLY_BIG_BUF with SOk b => b | _ => [] end
-  end.
+(* handle_ffi_req: reply message for an outcome.  The result is serialized into the 4096-byte stack buffer, else into a heap
+   buffer doubled from 1 MiB up to COP_REPLY_BIG_BUF (= the largest size tried, generated); a result that fits none is
+   answered with FFI_ERROR and the generated text.  (Doubling tries give the same answer as one try with the largest
+   buffer: CopCodecProofs.ser_buf_spec, the serializer succeeds exactly when the value fits.) *)
 Definition build_reply (o : outcome) : N * list byte :=
   match o with
-  | ORes r => (COP_MSG_FFI_RESULT, reply_payload r)
+  | ORes r =>
+      match ser_buf r COP_REPLY_STACK_BUF with
+      | SOk b => (COP_MSG_FFI_RESULT, b)
+      | _ => match ser_buf r COP_REPLY_BIG_BUF with
+             | SOk b => (COP_MSG_FFI_RESULT, b)
+             | _ => (COP_MSG_FFI_ERROR, COP_REPLY_TOO_LARGE_MSG)
+             end
+      end
   | OErr m => (COP_MSG_FFI_ERROR, m)
   end.
 
